@@ -346,6 +346,7 @@ def jobs(tier):
     js = [(h_inputbuffer, (mth,), 600) for mth in ('read', 'seek', 'skip')]
     js += [(h_outbuf_write, (t, 2), 600) for t in WRITE_TYPES]
     js += [(h_outbuf_add, (o, w), 900) for o in (('int64', 'float64', 'float32', 'uint8') if tier == 'quick' else sorted(ADD_OUT)) for w in (32, 64)]
+    js.append((h_outbuf_rewind, (), 900))
     # h_outbuf_write_one is not scheduled: the FP growth loop of maybe_resize costs ~15 min of branch-feasibility queries and stays inconclusive
     for T in (32, 64):
         for w in WORDS:
@@ -613,3 +614,59 @@ int main(int argc, char** argv) {
         tw.append(('fractional previous item', z3.And(length > 0, prev_at == z3.FPVal(2.5, srt))))
     return mdischarge(m, 'ForthOutputBufferOf<%s>::write_add_int%d' % (ct, width), obls, tw, timeout_ms=120000, replay=replay,
                       extra=dict(bounds='any previous item (any bit pattern), any value, 0 <= length_ <= 2^40, buffer with room (no growth)'))
+
+
+@guard
+def h_outbuf_rewind():
+    """ForthOutputBuffer::rewind(n) (the `n out rewind` word) from any buffer state: n items are dropped from the end - never more than there
+    are, and never a negative number (which would *extend* the output over memory that was never written): otherwise `rewind beyond`"""
+    from .mharness import stub_noop
+    m = MCtx([FOB], unwind=6, stubs={'awkward_free': stub_noop})
+    length, n = m.bv('length'), m.bv('num_items')
+    m.assume(length >= 0, length <= 2 ** 40)
+    buf = m.array('obuf', ('i', 64), length + 1)
+    this = m.record('ob', {0: (NULL, 8), 8: (length, 8), 16: (length + 1, 8), 24: (z3.FPVal(1.5, z3.Float64()), 8), 32: (buf, 8), 40: (NULL, 8)})
+    m.record('err', {0: (z3.BitVecVal(0, 32), 4)})
+    m.call('_ZN7awkward17ForthOutputBuffer6rewindElRNS_4util10ForthErrorE', [this, n, Ptr('err', 0)])
+    L1, e1 = m.cell('ob', 8), m.cell('err', 0)
+    ok = z3.And(n >= 0, n <= length)
+    REWIND_BEYOND = 10
+    obls = [('a count the buffer holds is dropped from the end', z3.And(ok, z3.Or(L1 != length - n, e1 != 0))),
+            ('any other count is refused (rewind beyond) and nothing changes', z3.And(z3.Not(ok), z3.Or(e1 != REWIND_BEYOND, L1 != length))),
+            ('the output never grows by rewinding', L1 > length)]
+
+    def replay(model, ent):
+        import subprocess, os
+        ev = lambda e: model.eval(e, model_completion=True).as_signed_long()
+        L, k = min(ev(length), 3), ev(n)
+        if abs(k) > 1000:
+            k = -3 if k < 0 else 1000
+        drv = r"""
+#include <cstdio>
+#include <cstdlib>
+#include "awkward/forth/ForthOutputBuffer.h"
+#include "awkward/util.h"
+using namespace awkward;
+int main(int argc, char** argv) {
+  long L = atol(argv[1]), k = atol(argv[2]);
+  ForthOutputBufferOf<int64_t> out(8, 1.5);
+  util::ForthError err = util::ForthError::none;
+  for (long i = 0; i < L; i++) out.write_one_int64(100 + i, false);
+  out.rewind(k, err);
+  printf("len=%ld err=%d\n", (long)out.len(), (int)err);
+  bool ok = (k >= 0 && k <= L) ? (err == util::ForthError::none && out.len() == L - k) : (err == util::ForthError::rewind_beyond && out.len() == L);
+  return ok ? 0 : 1;
+}
+"""
+        try:
+            from . import fullnative
+            exe = fullnative.link_driver(drv, 'forthrewind')
+        except Exception as e:      # noqa
+            return False, 'replay driver did not build: %s' % str(e)[-400:], {}
+        r = subprocess.run([exe, str(L), str(k)], capture_output=True, text=True, timeout=30, env=dict(os.environ, ASAN_OPTIONS='detect_leaks=0'), errors='replace')
+        payload = dict(length=L, num_items=k, native=r.stdout.strip())
+        if r.returncode != 0:
+            return True, 'output of %d items, rewind(%d): native %s' % (L, k, r.stdout.strip() or r.stderr[-200:]), payload
+        return False, 'native agrees (%s)' % r.stdout.strip(), payload
+    return mdischarge(m, 'ForthOutputBuffer::rewind', obls, [('accepted', ok), ('refused', z3.Not(ok))], replay=replay, prefer=[length <= 3, n >= -5, n <= 5],
+                      extra=dict(bounds='any length up to 2^40, any 64-bit count'))
